@@ -178,6 +178,8 @@ def cs_random(draw):
 @st.composite
 def tx_cases(draw, profile):
     tx = draw(gen_tx.tx_case(profile))
+    if draw(st.integers(0, 9)) == 0:
+        tx = draw(gen_tx.coinbase_case())  # null outpoint, arbitrary miner data in the script, reserved-value witness
     tr = draw(st.sampled_from(["none", "none", "byte", "bytes", "tx-prefix"]))
     if tr == "none":
         t = b""
